@@ -103,7 +103,7 @@ FIELDS = ["announce", "url-list", "httpseeds", "comment", "source", "private"]
 TRACKERLIKE = {"announce", "url-list", "httpseeds"}
 
 LIB_VALUES = {
-    "comment": ["c1", "c2 two words", ""],
+    "comment": ["c1", "c2 tw\u00f6 w\u00f6rds \u65e5", ""],
     "source": ["s1", ""],
     "private": [True, ""],
     "announce": ["http://u1/a http://u2/a", ["http://u3/a"], ""],
@@ -111,7 +111,7 @@ LIB_VALUES = {
     "httpseeds": [["http://h1/"], "http://h2/ http://h3/", ""],
 }
 CLI_VALUES = {
-    "comment": ["c1", "c2 two words", ""],
+    "comment": ["c1", "c2 tw\u00f6 w\u00f6rds \u65e5", ""],
     "source": ["s1", ""],
     "private": [True],
     "announce": [["http://u1/a", "http://u2/a"], ["http://u3/a"]],
@@ -542,6 +542,8 @@ class EditBFS:
         for wkey, w in sorted(worlds.items()):
             for sh_w in (w, {"shape": "S1", "sizes": [2 * P0 + 7], "cids": [0]},
                          {"shape": "D3d", "sizes": [2 * P0 + 1, 7, P0 + 5],
+                          "cids": [0, 1, 2]},
+                         {"shape": "D3num", "sizes": [2 * P0 + 1, 7, P0 + 5],
                           "cids": [0, 1, 2]}):
                 files = world.files_of(sh_w, seed)
                 for mask in range(32):
